@@ -551,7 +551,8 @@ func (s *session) ensureQueryBasedGroups(logEvent flows.EventCallback) {
 		return
 	}
 
-	added, removed := s.contact.ReevaluateQueryBasedGroups(s.Environment())
+	// same environment as modifiers applied by actions use, i.e. with the contact's own timezone etc
+	added, removed := s.contact.ReevaluateQueryBasedGroups(s.MergedEnvironment())
 
 	// add groups changed event for the groups we were added/removed to/from
 	if len(added) > 0 || len(removed) > 0 {
